@@ -1,7 +1,7 @@
 (* Case evaluators for the protocol families (harness/src/proto.rs), instantiated with the concrete
    BLAKE3 instance.  Observations and encodings mirror the harness exactly. *)
 From Coq Require Import Uint63.
-From BaoV Require Export Run.RunBase Model.Fsm Model.Blake3 Spec.EncSpec Spec.PlanSpec.
+From BaoV Require Export Run.RunBase Model.Fsm Model.IO Model.Blake3 Spec.EncSpec Spec.PlanSpec.
 Open Scope N_scope.
 
 Notation bytes := (list int).
@@ -616,3 +616,101 @@ Definition holds_agree_ob (a o : list N) : bool :=
       all_equal (map (fun e => firstn 2 e) [e0; e1; e8; e9; e14]) && list_eqb e9 e14
   | _ => false
   end.
+
+(* ---------------- family history (C07) ---------------- *)
+(* args [kind; seed; size; bs; sink; driver; nops; (nq; q..; cutkind; cutparam)*] *)
+Fixpoint hist_ops (n : nat) (l : list N) : list (ranges * N * N) :=
+  match n with
+  | O => []
+  | S k =>
+    let '(q, r) := take_list l in
+    match r with
+    | ck :: cp :: rest => (q, ck, cp) :: hist_ops k rest
+    | _ => []
+    end
+  end.
+
+Definition hist_step_run (data : bytes) (bs driver : N) (st : bytes * outboard B3) (op : ranges * N * N)
+  : (bytes * outboard B3) * list N :=
+  let '(target, ob) := st in
+  let '(q, ck, cp) := op in
+  let full := flat B3 (honest B3 data bs q) in
+  let stream := if ck =? 1 then firstn (N.to_nat cp) full else full in
+  let sf := mkSF (if ck =? 2 then Some cp else None) (if ck =? 3 then Some cp else None) KOther in
+  let '(r, target', ob') :=
+    if driver =? 2 then let '(r, t', o', _) := decode_ranges_f B3 sf stream q target ob in (r, t', o')
+    else let '(r, t', o', _) := decode_ranges_fsm_f B3 sf stream q target ob in (r, t', o') in
+  let rc := match r with Ok _ => [0; 0] | Err e => dec_rc e | Panic => [PANIC; 0] end in
+  let '(ys, vr) := valid_ranges B3 ob' target' [0] in
+  ((target', ob'),
+   rc ++ [dg target'; dg (ob_data ob'); io_rc vr; N.of_nat (length ys)] ++ flat_map (fun p => [fst p; snd p]) ys).
+
+Definition run_history (a : list N) : list N :=
+  let data := blob a in
+  let bs := arg a 3 in
+  let t := mkTree (blen B3 data) bs in
+  let k := okind_of (arg a 4) in
+  let ob0 := mkOb3 k (root_hash B3 data) t (match k with EmptyOb => [] | _ => zeros B3 (N.to_nat (outboard_size t)) end) in
+  let ops := hist_ops (N.to_nat (arg a 6)) (skipn 7 a) in
+  snd (fold_left (fun acc op => let '(st, out) := acc in
+                                let '(st', o) := hist_step_run data bs (arg a 5) st op in (st', out ++ o))
+                 ops ((repeat 0%uint63 (length data), ob0), [])).
+
+(* --- C07 oracle: D = chunks delivered so far, computed from the honest item list and the cut --- *)
+Definition leaf_chunk_list (off len : N) : list N :=
+  let s := off / 1024 in map (fun i => s + N.of_nat i) (seq 0 (N.to_nat (N.max 1 ((len + 1023) / 1024)))).
+(* items yielded by a step: those lying completely before the cut *)
+Fixpoint delivered_items (items : list (item B3)) (ck cp : N) (pos nl np : N) : list (item B3) :=
+  match items with
+  | [] => []
+  | i :: rest =>
+      let e := pos + blen B3 (item_bytes B3 i) in
+      if (ck =? 1) && (cp <? e) then []
+      else match i with
+           | ILeaf _ _ => if (ck =? 2) && (nl =? cp) then [] else i :: delivered_items rest ck cp e (nl + 1) np
+           | IParent _ _ _ => if (ck =? 3) && (np =? cp) then [] else i :: delivered_items rest ck cp e nl (np + 1)
+           end
+  end.
+Definition add_delivered (D : list N) (items : list (item B3)) : list N :=
+  D ++ flat_map (fun i => match i with ILeaf off d => leaf_chunk_list off (blen B3 d) | _ => [] end) items.
+Definition inD (D : list N) (c : N) : bool := existsb (N.eqb c) D.
+
+Definition expected_target (data : bytes) (D : list N) : bytes :=
+  let n := nchunks (blen B3 data) in
+  flat_map (fun c => let cb := chunk_bytes B3 data c (c + 1) in
+                     if inD D c then cb else repeat 0%uint63 (length cb))
+           (map N.of_nat (seq 0 (N.to_nat n))).
+Definition expected_groups (size bs : N) (D : list N) : list N :=
+  let n := nchunks size in let g := 2 ^ bs in
+  flat_map (fun ga => let a := ga * g in let e := N.min ((ga + 1) * g) n in
+                      if forallb (inD D) (chunk_range_list a e) then [a; if size =? 0 then 0 else e] else [])
+           (map N.of_nat (seq 0 (N.to_nat ((n + g - 1) / g)))).
+
+Fixpoint holds_hist_steps (fuel : nat) (data : bytes) (bs : N) (post : bool) (ops : list (ranges * N * N)) (o : list N) (D : list N) : bool :=
+  match fuel with
+  | O => false
+  | S f =>
+    match ops with
+    | [] => match o with [] => true | _ => false end
+    | (q, ck, cp) :: rest =>
+      match o with
+      | rc :: p :: tdg :: obdg :: verr :: nr :: more =>
+          let rs := firstn (2 * N.to_nat nr) more in
+          let more' := skipn (2 * N.to_nat nr) more in
+          let hon := honest B3 data bs q in
+          let D' := add_delivered D (delivered_items hon ck cp 0 0 0) in
+          let size := blen B3 data in
+          let all := forallb (inD D') (map N.of_nat (seq 0 (N.to_nat (nchunks size)))) in
+          (tdg =? dg (expected_target data D')) && (verr =? 0) &&
+          list_eqb rs (expected_groups size bs D') &&
+          (if all then obdg =? dg (spec_outboard B3 post data bs) else true) &&
+          holds_hist_steps f data bs post rest more' D'
+      | _ => false
+      end
+    end
+  end.
+Definition holds_history (a o : list N) : bool :=
+  let data := blob a in
+  let ops := hist_ops (N.to_nat (arg a 6)) (skipn 7 a) in
+  negb (existsb (fun x => x =? PANIC) o) &&
+  holds_hist_steps (S (length ops)) data (arg a 3) (is_post (okind_of (arg a 4))) ops o [].
